@@ -1,9 +1,19 @@
-(* C12 — cached results are transparent.  Only theorem statements live here (proved in MemoLaws / Proofs / Algebra). *)
-From Coq Require Import List String Bool ZArith.
+(* C12 — cached results are transparent: answers do not depend on query history.
+   Only theorem statements live here; each is closed by `exact` of a lemma proved in MemoLaws.v (about the
+   functions GENERATED from linear_operator/utils/memoize.py), Proofs.v (history invariant, any kernels),
+   SymOk.v (symbolic instance, refutations) or Algebra.v (MathComp). *)
+From Coq Require Import List String Bool Arith ZArith.
 Import ListNotations.
-Require Import C12.MemoBase C12.gen.Memoize C12.MemoLaws.
+Require Import C12.MemoBase C12.gen.Memoize C12.gen.SourceFlags C12.MemoLaws C12.Model C12.Sym C12.Proofs C12.SymOk.
+From mathcomp Require Import all_ssreflect all_algebra.
+Require Import C12.Algebra.
 
-Theorem C12_cached_protocol : forall (S V : Type) (L : lens S V), lens_ok L ->
+(* ---------------------------------------------------------------- the memoize protocol (translated source) *)
+
+(* @cached honouring the arguments: a hit returns the stored value, runs nothing and changes nothing; a miss
+   runs the method (which may itself write to the cache) and stores its result under (name, args, pickle(kwargs));
+   a raising method stores nothing.  For any state and any lawful lens onto the object's _memoize_cache. *)
+Theorem C12_cached_protocol : forall (S V : Type) (L : lens S V) (LO : lens_ok L),
   forall method nm body a kw (s : S),
   lvalid s -> (forall r s', body a kw s = (r, s') -> lvalid s') ->
   py__cached method nm body a kw s =
@@ -16,3 +26,180 @@ Theorem C12_cached_protocol : forall (S V : Type) (L : lens S V), lens_ok L ->
             end
   end.
 Proof. intros S V L LO. exact (@cached_spec S V L LO). Qed.
+
+(* cached results under different (args, kwargs) never collide: distinct call signatures are distinct keys, a bare
+   (ignore_args) key is never a tuple key, and a @cached call reads and writes no entry but the one under its own
+   key (everything else that changes, the method body changed) *)
+Theorem cache_keys_separate : forall (S V : Type) (L : lens S V) (LO : lens_ok L),
+  (forall (n n' : name) a a' kw kw', KFull n a kw = KFull n' a' kw' -> n = n' /\ a = a' /\ kw = kw') /\
+  (forall (n n' : name) a kw, KName n <> KFull n' a kw) /\
+  (forall method nm body a kw (s : S) K',
+     lvalid s -> (forall r s', body a kw s = (r, s') -> lvalid s') ->
+     K' <> KFull (name_of_opt nm method) a kw ->
+     d_get (dict_of (lget (snd (py__cached method nm body a kw s)))) K' =
+     match d_get (dict_of (lget s)) (KFull (name_of_opt nm method) a kw) with
+     | Some _ => d_get (dict_of (lget s)) K'
+     | None => d_get (dict_of (lget (snd (body a kw s)))) K'
+     end).
+Proof.
+  intros S V L LO. split; [exact key_injective|]. split; [exact key_bare_full|].
+  intros method nm body a kw s K'. exact (@cached_frame S V L LO method nm body a kw s K').
+Qed.
+
+(* ignore_args entries are used only where the answer is argument-independent: on an object whose _cholesky is
+   @cached(name="cholesky", ignore_args=True) (the Diag family, whose matrix is diagonal: hypothesis diaglike of
+   the heap invariant) whatever entry sits under the bare key is a valid factor for BOTH orientations *)
+Theorem ignore_args_sound : forall K valid compat diaglike is1x1 shifted scaled,
+  kern_ok K valid compat diaglike is1x1 shifted scaled ->
+  forall h0 i o args kw, get K i h0 = Some o -> pf_chol_ignore (o_pf K o) = true ->
+  sound K valid diaglike is1x1 shifted scaled h0 (_cholesky K i args kw)
+        (fun v => valid (AChol false) (o_mat K o) v /\ valid (AChol true) (o_mat K o) v).
+Proof. exact sound__cholesky_ignore. Qed.
+
+(* _is_in_cache_ignore_all_args is `name in [k[0] for k in keys]`: on a bare str key k[0] is its first character *)
+Theorem ignore_all_args_bare_string_oddity : forall (V : Type) (v : V),
+  let s := Some [(KName (NStr "cholesky"), v)] in
+  py__is_in_cache_ignore_all_args (L := self_lens V) (NStr "c") s = (Ok true, s)
+  /\ py__is_in_cache_ignore_all_args (L := self_lens V) (NStr "cholesky") s = (Ok false, s)
+  /\ py__is_in_cache_ignore_all_args (L := self_lens V) (NStr "cholesky") (Some [(KName (NFun "f"), v)])
+     = (Raise TypeError, Some [(KName (NFun "f"), v)]).
+Proof. exact MemoLaws.ignore_all_args_bare_string_oddity. Qed.
+
+(* ---------------------------------------------------------------- histories *)
+
+(* For EVERY finite history of queries / derivations / settings switches / seed / clear events, from any heap that
+   satisfies the invariant (e.g. freshly built objects), for every instance of the numerical kernels that is valid
+   (kern_ok): if every event meets its explicit side condition (good_run: addressed objects exist, new objects are
+   honestly described, eigh/eigvalsh are not called on a cached ("symeig", eigenvectors=True) entry, and each
+   add_low_rank / cat_rows is handed a COMPATIBLE root / inverse-root pair - for add_low_rank a non-triangular
+   root), then every cache entry of every object stays valid for that object's matrix. *)
+Theorem history_invariant : forall K fl valid compat diaglike is1x1 shifted scaled,
+  kern_ok K valid compat diaglike is1x1 shifted scaled ->
+  forall (es : list (event K)) (s : state K),
+  Inv K valid diaglike is1x1 shifted scaled (snd s) ->
+  good_run K fl compat diaglike is1x1 shifted scaled s es ->
+  Inv K valid diaglike is1x1 shifted scaled (snd (snd (run K fl s es))).
+Proof.
+  intros K fl valid compat diaglike is1x1 shifted scaled KO es s I G.
+  exact (proj1 (history_invariant_gen K fl valid compat diaglike is1x1 shifted scaled KO es s I G)).
+Qed.
+
+(* ... and every answer of every query in the history is a valid answer for the matrix of the object it was put
+   to, whatever was asked before, in whatever order, under whatever settings *)
+Corollary C12_transparent : forall K fl valid compat diaglike is1x1 shifted scaled,
+  kern_ok K valid compat diaglike is1x1 shifted scaled ->
+  forall (es : list (event K)) (s : state K),
+  Inv K valid diaglike is1x1 shifted scaled (snd s) ->
+  good_run K fl compat diaglike is1x1 shifted scaled s es ->
+  answers_ok K fl valid s es.
+Proof.
+  intros K fl valid compat diaglike is1x1 shifted scaled KO es s I G.
+  exact (proj2 (proj2 (history_invariant_gen K fl valid compat diaglike is1x1 shifted scaled KO es s I G))).
+Qed.
+
+(* the side conditions that exclude the known defects are tied to the three defect sites that are re-read from
+   _linear_operator.py on every run (gen/SourceFlags.v): once a site is repaired its side condition is void - every
+   query is then unconditionally fine, and add_low_rank needs the compatibility of the two roots only *)
+Theorem repaired_source_lifts_side_conditions : forall K fl (compat : Val K -> Val K -> Prop),
+  (fl_eigh_none fl = false -> fl_eigvalsh_tuple fl = false -> forall i q h, query_ok K fl i q h) /\
+  (fl_lr_wraps fl = false -> forall B m1 m2 g j L M,
+     compat (v_root K L) (v_root K M) -> transplant_ok K fl compat (DAddLowRank B m1 m2 g) (j, Some (L, M))).
+Proof. exact repaired_lifts. Qed.
+
+(* hence it agrees, up to what `valid` leaves open (the tolerance / the freedom of the method), with the answer of
+   the same query on a fresh clone: any object with the same matrix in any heap satisfying the invariant - in
+   particular one with empty caches - gives an answer that is valid for the SAME aspect of the SAME matrix *)
+Corollary C12_fresh_clone_agrees : forall K fl valid compat diaglike is1x1 shifted scaled,
+  kern_ok K valid compat diaglike is1x1 shifted scaled ->
+  forall st q (h hf : heap K) i j o oc,
+  Inv K valid diaglike is1x1 shifted scaled h -> Inv K valid diaglike is1x1 shifted scaled hf ->
+  get K i h = Some o -> get K j hf = Some oc -> o_mat K oc = o_mat K o ->
+  query_ok K fl i q h -> query_ok K fl j q hf ->
+  res_ok (fst (run_query K fl st i q h)) (valid (aspect_of_query q) (o_mat K o)) /\
+  res_ok (fst (run_query K fl st j q hf)) (valid (aspect_of_query q) (o_mat K o)).
+Proof.
+  intros K fl valid compat diaglike is1x1 shifted scaled KO st q h hf i j o oc I If G Gf Em Q Qf.
+  split.
+  - exact (proj2 (proj2 (run_query_sound K fl valid compat diaglike is1x1 shifted scaled KO st i q h o I G Q))).
+  - rewrite <- Em. exact (proj2 (proj2 (run_query_sound K fl valid compat diaglike is1x1 shifted scaled KO st j q hf oc If Gf Qf))).
+Qed.
+
+(* the kernel hypotheses are satisfiable, by the very instance the correspondence shards execute ... *)
+Theorem kernel_hypotheses_satisfiable :
+  kern_ok sym_kern svalid scompat (fun _ => False) (fun _ => True) (fun _ _ => True) (fun _ _ => True).
+Proof. exact sym_kern_ok. Qed.
+
+(* ... and so are the side conditions, on a non-trivial history (roots, a compatible add_low_rank, queries on the
+   new operator, a settings switch, a Lanczos inverse root, a cat_rows) *)
+Example history_hypotheses_satisfiable :
+  good_run sym_kern fl_pinned scompat (fun _ => False) (fun _ => True) (fun _ _ => True) (fun _ _ => True) (st_default, heap1) hist_good
+  /\ Inv sym_kern svalid (fun _ => False) (fun _ => True) (fun _ _ => True) (fun _ _ => True) heap1.
+Proof. split; [exact hist_good_ok | exact heap1_inv]. Qed.
+
+(* ---------------------------------------------------------------- where the pinned code falsifies the statement *)
+
+(* add_low_rank with the default methods on a small matrix: self's root is the (triangular) Cholesky factor, the
+   dense update L U S~ is wrapped in TriangularLinearOperator; the transplanted entries of the new operator are
+   invalid and its logdet(), which takes the triangular-root shortcut, is wrong - with valid kernels throughout *)
+Theorem add_low_rank_triangular_label_refuted :
+  ~ Inv sym_kern svalid (fun _ => False) (fun _ => True) (fun _ _ => True) (fun _ _ => True) (final hist_label) /\
+  ~ answers_ok sym_kern fl_pinned svalid (st_default, heap1) hist_label /\
+  entries_bad (final hist_label) = [(1, 0); (1, 1)].
+Proof. exact add_low_rank_label_refuted. Qed.
+
+(* root and inverse root from different factorizations (root_decomp_method="symeig",
+   root_inv_decomp_method="cholesky"): each is a valid entry of self's cache, the transplanted root is not *)
+Theorem transplant_methods_mismatch_refuted :
+  entries_bad (final hist_methods) = [(1, 0)] /\
+  entries_bad (snd (snd (run sym_kern fl_pinned (st_default, heap1)
+     [EQuery 0 (QRootDecomp [] [("method", PStr "symeig")]); EQuery 0 (QRootInv [] [("method", PStr "cholesky")])]))) = [].
+Proof. exact add_low_rank_methods_refuted. Qed.
+
+(* cat_rows: root_decomposition() cached under Cholesky, then max_cholesky_size(0): the inverse root is a Lanczos one *)
+Theorem cat_rows_settings_switch_refuted : entries_bad (final hist_cat) = [(1, 0); (1, 1)].
+Proof. exact cat_rows_settings_refuted. Qed.
+
+(* eigh() after a cached ("symeig", eigenvectors=True) entry: returns (evals, None) and removes the entry; the
+   next eigh() is fine again *)
+Theorem eigh_after_cached_symeig :
+  map (fun a : answer sym_kern => match a with AVal (Ok v) => sym_valid (AEig true) (SBase 0) v | _ => true end)
+      (fst (run sym_kern fl_pinned (st_default, heap1) hist_eigh)) = [true; false; true]
+  /\ map (fun o => d_keys (dict_of (o_memo sym_kern o))) (h_objs sym_kern (final [ESeedSymeig 0; EQuery 0 QEigh])) = [[]]
+  /\ ~ answers_ok sym_kern fl_pinned svalid (st_default, heap1) hist_eigh.
+Proof. exact eigh_after_cached_symeig_refuted. Qed.
+
+(* ---------------------------------------------------------------- the transplant algebra (MathComp, any field) *)
+Local Open Scope ring_scope.
+
+(* add_low_rank:  L L^T = A,  L M^T = I (compatibility),  M^T B = U S V^T,  St St^T = I + S S^T
+   ==>  (L U St)(L U St)^T = A + B B^T *)
+Theorem transplant_add_low_rank_root : forall (F : fieldType) (n q : nat)
+  (A L M U St : 'M[F]_n) (B S : 'M[F]_(n, q)) (V : 'M[F]_q),
+  L *m L^T = A -> L *m M^T = 1%:M -> M^T *m B = U *m S *m V^T ->
+  U *m U^T = 1%:M -> V^T *m V = 1%:M -> St *m St^T = 1%:M + S *m S^T ->
+  (L *m U *m St) *m (L *m U *m St)^T = A + B *m B^T.
+Proof. exact transplant_add_low_rank. Qed.
+
+(* ... and M U St^-1 is a root of the inverse *)
+Theorem transplant_add_low_rank_inverse_root : forall (F : fieldType) (n q : nat)
+  (A L M U St Sti : 'M[F]_n) (B S : 'M[F]_(n, q)) (V : 'M[F]_q),
+  L *m L^T = A -> L *m M^T = 1%:M -> M^T *m B = U *m S *m V^T ->
+  U *m U^T = 1%:M -> V^T *m V = 1%:M -> St *m St^T = 1%:M + S *m S^T -> Sti^T *m St = 1%:M ->
+  ((M *m U *m Sti) *m (M *m U *m Sti)^T) *m (A + B *m B^T) = 1%:M.
+Proof. exact transplant_add_low_rank_inv. Qed.
+
+(* cat_rows:  E E^T = A,  E R^T = I (compatibility),  G G^T = D - (B R)(B R)^T
+   ==>  Z = [[E,0],[B R,G]] is a root of [[A,B^T],[B,D]] *)
+Theorem transplant_cat_rows_root : forall (F : fieldType) (n k : nat)
+  (A E R : 'M[F]_n) (B : 'M[F]_(k, n)) (D G : 'M[F]_k),
+  E *m E^T = A -> E *m R^T = 1%:M -> G *m G^T = D - (B *m R) *m (B *m R)^T ->
+  let Z := block_mx E 0 (B *m R) G in Z *m Z^T = block_mx A B^T B D.
+Proof. exact transplant_cat_rows. Qed.
+
+(* the compatibility hypothesis cannot be dropped: valid root, valid inverse root, genuine SVD - invalid transplant *)
+Theorem transplant_needs_compatibility_refuted :
+  exists (A L M U S_t : 'M[rat]_(1 + 1)) (Bm S : 'M[rat]_(1 + 1, 1)) (V : 'M[rat]_1),
+    [/\ L *m L^T = A, (M *m M^T) *m A = 1%:M & M^T *m Bm = U *m S *m V^T] /\
+    [/\ U *m U^T = 1%:M, V^T *m V = 1%:M & S_t *m S_t^T = 1%:M + S *m S^T]
+    /\ (L *m U *m S_t) *m (L *m U *m S_t)^T != A + Bm *m Bm^T.
+Proof. exact transplant_needs_compatibility_refuted_rat. Qed.
